@@ -326,6 +326,84 @@ func runHsrvCase(t *testing.T, c map[string]any, tmp string) map[string]any {
 			close(start)
 			pwg.Wait()
 			ar["par"] = pres
+		case "iopair": /* two /io requests from the same client address arriving together, over and over: which halves make the shell? */
+			rounds := int(vnum(am["rounds"], 10))
+			var pairs []map[string]any
+			for rd := 0; rd < rounds; rd++ {
+				type ioc struct {
+					c   *tls.Conn
+					buf bytes.Buffer
+					mu  sync.Mutex
+				}
+				cs := [2]*ioc{{}, {}}
+				var dwg sync.WaitGroup
+				start := make(chan struct{})
+				for k := range cs {
+					dwg.Add(1)
+					go func() {
+						defer dwg.Done()
+						tc, err := dial("")
+						if nil != err {
+							return
+						}
+						cs[k].c = tc
+						<-start
+						tc.Write([]byte("POST /io HTTP/1.1\r\nHost: h\r\nTransfer-Encoding: chunked\r\n\r\n"))
+						go func() {
+							b := make([]byte, 65536)
+							for {
+								n, err := tc.Read(b)
+								cs[k].mu.Lock()
+								cs[k].buf.Write(b[:n])
+								cs[k].mu.Unlock()
+								if nil != err {
+									return
+								}
+							}
+						}()
+					}()
+				}
+				time.Sleep(5 * time.Millisecond)
+				close(start)
+				dwg.Wait()
+				time.Sleep(120 * time.Millisecond)
+				drainOch(och, 20*time.Millisecond)
+				probe := fmt.Sprintf("PROBE-%d", rd)
+				ich <- probe
+				for k, name := range []string{"A", "B"} {
+					if nil != cs[k].c {
+						d := fmt.Sprintf("OUT-%s-%d\n", name, rd)
+						fmt.Fprintf(cs[k].c, "%x\r\n%s\r\n", len(d), d)
+					}
+				}
+				lines := drainOch(och, 150*time.Millisecond)
+				one := map[string]any{"round": rd, "in": "", "out": []string{}}
+				for k, name := range []string{"A", "B"} {
+					cs[k].mu.Lock()
+					if bytes.Contains(cs[k].buf.Bytes(), []byte(probe)) {
+						one["in"] = one["in"].(string) + name
+					}
+					cs[k].mu.Unlock()
+				}
+				for _, l := range lines {
+					if p, _ := l["plain"].(bool); p {
+						t, _ := hex.DecodeString(l["line"].(string))
+						for _, name := range []string{"A", "B"} {
+							if bytes.Contains(t, []byte(fmt.Sprintf("OUT-%s-%d", name, rd))) {
+								one["out"] = append(one["out"].([]string), name)
+							}
+						}
+					}
+				}
+				pairs = append(pairs, one)
+				for k := range cs {
+					if nil != cs[k].c {
+						cs[k].c.Close()
+					}
+				}
+				drainOch(och, 200*time.Millisecond)
+			}
+			ar["pairs"] = pairs
 		case "direct": /* call the mux (or a handler) with a crafted request */
 			method := hstr(am, "method")
 			if "" == method {
@@ -511,10 +589,19 @@ func runHsrvCase(t *testing.T, c map[string]any, tmp string) map[string]any {
 					ended = true
 				default:
 				}
-				if resp, err := http.ReadResponse(bufio.NewReader(bytes.NewReader(got)), nil); nil == err {
+				br := bufio.NewReader(bytes.NewReader(got))
+				for {
+					resp, err := http.ReadResponse(br, nil)
+					if nil != err {
+						break
+					}
+					if 1 == resp.StatusCode/100 { /* "100 Continue" is not the answer */
+						continue
+					}
 					if _, e2 := io.ReadAll(resp.Body); nil == e2 && (resp.ContentLength >= 0 || 0 != len(resp.TransferEncoding)) {
 						ended = true
 					}
+					break
 				}
 				ar["ended"] = ended
 			}
